@@ -26,11 +26,14 @@ Check(e) ==
       masked == e.mask = "fix2"
       free == IF masked THEN <<1, 3>> ELSE <<1, 2, 3>>
       keptLin == {k \in 1..nLin : ~(masked /\ LinTouchesFixed(k))}
+      \* a narrow band [-1, -1 + 1e-6] contains exactly the integer -1
+      NLB(k) == IF e.narrow /\ k = 1 THEN [lb |-> -1, ub |-> -1] ELSE Bounds(e.nl[k])
+      nEq == Cardinality({k \in 1..nNL : e.nl[k] = "eq"}) + Cardinality({k \in keptLin : e.lin[k] = "eq"})
       G == 1..Len(e.grid)
       x(i) == Full(e.grid[i])
       cfgFeasible(i) ==
         /\ \A j \in 1..Len(free) : Sat(x(i)[free[j]], [lb |-> e.vlb[free[j]], ub |-> e.vub[free[j]]])
-        /\ \A k \in 1..nNL : Sat(NLVal(k, x(i)), Bounds(e.nl[k]))
+        /\ \A k \in 1..nNL : Sat(NLVal(k, x(i)), NLB(k))
         /\ \A k \in keptLin : Sat(LinVal(k, x(i)), Bounds(e.lin[k]))
       boundsOK(i) == ~e.bounds.present \/ \A j \in 1..Len(free) :
                         ObsLe(e.bounds.lb[j], [k |-> "q", n |-> x(i)[free[j]], d |-> 1]) /\ ObsLe([k |-> "q", n |-> x(i)[free[j]], d |-> 1], e.bounds.ub[j])
@@ -45,6 +48,7 @@ Check(e) ==
      ELSE IF e.bounds.present /\ (Len(e.bounds.lb) # Len(free) \/ Len(e.bounds.ub) # Len(free)) THEN "fixed_variables_exposed"
      ELSE IF e.bounds.present /\ (\E j \in 1..Len(free) : ~ObsBound(e.bounds.lb[j], e.vlb[free[j]]) \/ ~ObsBound(e.bounds.ub[j], e.vub[free[j]]))
           THEN "bounds_object_differs"
+     ELSE IF e.method \in {"slsqp", "cobyla"} /\ Cardinality({r \in 1..Len(e.rows) : e.rows[r].eq}) # nEq THEN "inequality_handed_as_equality_or_vice_versa"
      ELSE IF \E i \in G : cfgFeasible(i) /\ ~handedFeasible(i) THEN "handed_problem_stricter"
      ELSE IF \E i \in G : ~cfgFeasible(i) /\ handedFeasible(i) THEN "constraint_dropped_or_weakened"
      ELSE IF \E r \in 1..Len(e.rows) : Len(e.rows[r].jac0) > 0 /\ \E v \in 1..Len(free) :
